@@ -8,7 +8,7 @@ from pdb2sql import pdb2sql, many2sql
 ID = 'C17'
 LEVEL = 'proof'
 CLUSTER = 'B'
-GEN_UNITS = ['Consts', 'sql_runtime', 'sql_get_nokw', 'sql_get_cond', 'sql_get_query', 'sql_get_rows_step', 'sql_format_get_output']
+GEN_UNITS = ['Consts', 'sql_runtime', 'sql_get_nokw', 'sql_get_cond', 'sql_get_query', 'sql_get_rows_step', 'sql_format_get_output', 'get_runtime', 'get_get']
 RULE = ('Databases of 1-3 structures (pdb2sql for one, many2sql for several; 30-4000 atoms per table, formula-generated so that the '
         'Lean side rebuilds the same records). One condition carries a value list of length L in {0,1,2,949,950,951,998,999,1000,'
         '1899,1900,1901,2851} or a random length up to 3000, on rowID / serial / resSeq / name / x, positive or negated, values in '
@@ -288,8 +288,49 @@ def sql_text_checks(ctx):
              'ok': bad is None and len(plan) >= 10, 'case': bad, 'detail': 'Gen/Sql.lean get_query (per chunk) and get_rows_step (final queries)', 'kind': 'sql-text'}]
 
 
+# ---- getTie: begin -----------------------------------------------------------------------------------------------------
+def gen_get_checks(ctx):
+    """the WHOLE translated `get` (Gen/Get.lean `GenG.get`, chunked branch and its recursion included, MicroSql as the engine)
+    against the real code on the property's own `get` cases: every length of the grid, positive and negated, duplicates, two long
+    lists, the combined limit, every table name"""
+    import vlib
+    rng = ctx.rng
+    pool = [c for c in cases(ctx) if c['op'] == 'get' and sum(n for _, n, _ in c['spec']) <= 1200]
+    fams = {}
+    for c in pool:
+        fams.setdefault(c['family'], []).append(c)
+    sample = []
+    for f in sorted(fams):
+        sample += rng.sample(fams[f], min(ctx.scale(18, 200), len(fams[f])))
+    lines, outs = [], []
+    for c in sample:
+        outs.append(impl(ctx, c))
+        lines.append(dict(driver_line(c), op='g_get'))
+    ans = vlib.run_driver(lines, which='model', cluster=CLUSTER) if lines else []
+    bad, n, disc, kinds = None, 0, 0, {}
+    for c, out, a in zip(sample, outs, ans):
+        m = a.get('model')
+        if not isinstance(m, dict) or 'gen' not in m:
+            bad = bad or {'case': B.short(c['kw']), 'driver': B.short(m)}
+            continue
+        v = B.agree_answer_model(out, m['gen'])
+        if v == 'discard':
+            disc += 1
+            continue
+        n += 1
+        kk = c['family'] + (':chunked' if c['maxlen'] > 950 else '') + (':err' if is_err(out) else '')
+        kinds[kk] = kinds.get(kk, 0) + 1
+        if v is not True and bad is None:
+            bad = {'columns': c['columns'], 'tn': c['tn'], 'kw': B.short(c['kw'], 600), 'real code': B.short(out), 'translated get': B.short(m['gen']),
+                   'hand model': B.short(m.get('hand'))}
+    return [{'name': f'whole get() on long lists: real code = GENERATED GenG.get ({n} calls: {kinds}; {disc} outside MicroSql)',
+             'ok': bad is None and n > 60 and any(':chunked' in k for k in kinds), 'case': bad,
+             'detail': 'Gen/Get.lean (py/translate_ext_get.py): validation, dispatch, chunked branch with its recursion, MicroSql as the engine', 'kind': 'gen-get'}]
+# ---- getTie: end -------------------------------------------------------------------------------------------------------
+
+
 def extra_checks(ctx):
-    return sql_text_checks(ctx)
+    return sql_text_checks(ctx) + gen_get_checks(ctx)
 
 
 def search_cases(ctx):
